@@ -4,7 +4,7 @@ CONSTANTS
   ExtraNew <- ExtraNewQuick
   PropSet <- PropSetQuick
   UnitLimit = 18
-  ActLimit = 18
+  ActLimit = 16
   GrowLimit = 6
 SPECIFICATION Spec
 CHECK_DEADLOCK FALSE
